@@ -49,7 +49,14 @@ func newStallTarget(r rng, kind string, nkeys int) *stallTarget {
 			func(k int) (any, bool) { v, _, ok := c.GetWithTTL(k); return v, ok }}
 		t.loadNm = []string{"Get", "GetWithExpiration", "GetWithTTL"}
 		t.size = c.Count
-		t.store = func(k int, v any) { c.Set(k, v, time.Hour) }
+		// half of the entries never expire, half carry a long TTL: both kinds must be lock-free to read
+		t.store = func(k int, v any) {
+			if k%2 == 0 {
+				c.SetForever(k, v)
+			} else {
+				c.Set(k, v, time.Hour)
+			}
+		}
 		t.setShort = func(k int, v any) { c.Set(k, v, 5) }
 		t.del = c.Delete
 		t.clear = c.Clear
@@ -356,7 +363,9 @@ func runStall(a *args, res *result) {
 							}
 						}
 					}
-					if sc.inFn {
+					if sc.inFn || stuck != "" {
+						// a reader that never returns has been reported: no need to enumerate
+						// the remaining stall points of this operation
 						break
 					}
 				}
